@@ -161,7 +161,9 @@ def gen_case(rng):
     # nothing, so the engine tasks no one and only the stored observations can reach the filters
     return {"kind": "c19", "obs_next_to_live_tasking": (live := rng.random() < 0.4), "blind_consumer": live and rng.random() < 0.5,
             "split_engines": split and leave is None, "late": late, "leave": leave, "net": net, "steps": steps, "edit": edit_kind, "imported": imported, "extra_agents": extra, "gap": gap,
-            "imported_obs": (imp_obs := rng.random() < 0.6), "dup_obs": imp_obs and rng.random() < 0.35, "edit_seed": rng.randrange(1 << 30)}
+            "imported_obs": (imp_obs := rng.random() < 0.6), "dup_obs": imp_obs and rng.random() < 0.35, "edit_seed": rng.randrange(1 << 30),
+            # the consumer writes its own output every m-th physics step (states are imported at every physics step regardless)
+            "out_mult": rng.choice([1, 1, 2, 3, 5])}
 
 
 def eval_case(ctx, case):
@@ -208,6 +210,9 @@ def eval_case(ctx, case):
         cfg["engines"].append(e2)
     start = datetime.fromisoformat(net["start"])
     cfg["time"]["stop_timestamp"] = sk.iso(start + timedelta(seconds=(steps + 1) * net["step"]))
+    if case.get("out_mult", 1) > 1:
+        cfg["time"]["output_step_sec"] = int(net["step"]) * int(case["out_mult"])
+        ctx.count("consumers_with_output_step_above_physics_step")
     cfg["propagation"]["target_realtime_propagation"] = case["imported"] not in ("targets", "both")
     cfg["propagation"]["sensor_realtime_propagation"] = case["imported"] not in ("sensors", "both")
     if case["imported_obs"] and not case.get("obs_next_to_live_tasking"):
